@@ -77,6 +77,8 @@ type Frame struct {
 	framed        bool
 	modObjs       []string
 	usedContracts map[string]bool
+	assertsHit    map[string]bool
+	bridged       map[string]bool
 }
 
 type closureVal struct {
@@ -394,7 +396,7 @@ func (e *Engine) ifaceContract(cc *ssa.CallCommon) *FuncContract {
 				continue
 			}
 			in := n[:i]
-			if e.CS.IfaceGetters[in] || e.CS.IfaceGetters[strings.TrimPrefix(in, modPrefix)] {
+			if e.CS.isGetter(in, m.Name()) {
 				return &FuncContract{Ref: n, Pure: true, SpecOnly: true, Trusted: true}
 			}
 		}
@@ -964,9 +966,17 @@ func (f *Frame) frameFacts(before, after *State, guard string, modObjs []string)
 }
 
 func (f *Frame) frameFact1(k, hb, ha, alloc, guard string, modObjs []string) {
+	if strings.HasPrefix(k, "G_") {
+		return // ghost heaps are not keyed by addresses; contracts state their own frames
+	}
 	cond := fmt.Sprintf("(< (pobj p) %s)", alloc)
 	var ex []string
 	for _, m := range modObjs {
+		if strings.HasPrefix(m, "slice:") {
+			// only the elements of this slice (not the rest of its backing object)
+			ex = append(ex, fmt.Sprintf("(not (inslice p %s))", m[6:]))
+			continue
+		}
 		ex = append(ex, fmt.Sprintf("(not (= (pobj p) %s))", m))
 	}
 	cond = And(append([]string{"(not (= p nil))", cond}, ex...)...)
@@ -975,6 +985,10 @@ func (f *Frame) frameFact1(k, hb, ha, alloc, guard string, modObjs []string) {
 		scond := fmt.Sprintf("(< (pobj (sbase s)) %s)", alloc)
 		var sex []string
 		for _, m := range modObjs {
+			if strings.HasPrefix(m, "slice:") {
+				sex = append(sex, fmt.Sprintf("(slicesdisjoint s %s)", m[6:]))
+				continue
+			}
 			sex = append(sex, fmt.Sprintf("(not (= (pobj (sbase s)) %s))", m))
 		}
 		scond = And(append([]string{"(not (= (sbase s) nil))", scond}, sex...)...)
